@@ -85,6 +85,7 @@ type sPeer struct {
 	kalives              int
 	closedAt             int           // len(trace) when Close returned, -1 before
 	t0                   time.Time     // start of the schedule
+	kalivesHold0         int           // KEEPALIVEs seen although the negotiated hold time is 0 (statistic)
 	oversized            int           // UPDATEs longer than 4096 octets
 	wantID               [4]byte       // router id the OPEN must carry
 	closeCalled          bool          // the driver is in / past Close()
@@ -402,7 +403,7 @@ func (p *sPeer) handle(pc *sPeerConn, sc sConnScript) {
 			p.kalives++
 			p.logT(fmt.Sprintf("TKeepalive %d %d", pc.id, sc.hold), fmt.Sprintf("c%d: KEEPALIVE", pc.id))
 			if p.wantHold == 0 || sc.hold == 0 {
-				p.fail("session-keepalive-with-hold-time-0", fmt.Sprintf("c%d: negotiated hold time is 0 (configured %d, peer %d: no keepalive timer), a KEEPALIVE arrived after the accepting one", pc.id, p.wantHold, sc.hold))
+				p.kalivesHold0++ // statistic only: no property forbids a KEEPALIVE (RFC 4271 forbids PERIODIC ones here)
 			}
 		case m.Type == 2:
 			p.msgs++
@@ -1174,6 +1175,7 @@ func sRunSchedule(t *testing.T, out *vOut, id int, r *rand.Rand, special string)
 	}
 	out.Stat("sess:messages", p.msgs)
 	out.Stat("sess:keepalives", p.kalives)
+	out.Stat("sess:keepalives-with-negotiated-hold-0", p.kalivesHold0)
 	out.Stat("sess:schedules", 1)
 	human := map[string]any{"ibgp": ibgp, "myasn": myASN, "peer_as4": as4, "final": final, "conns": p.nconn, "trace": p.human, "special": special}
 	for _, f := range p.fails {
@@ -1251,8 +1253,17 @@ func (w *wbSess) setAdvMap(name string, m map[string]*bgp.Advertisement) {
 	}
 }
 
-// advMap reads a map[string]*Advertisement field: (is nil, the entries as pointer values)
-func (w *wbSess) advMap(name string) (bool, []uintptr) {
+// wbAdv is the content of one advertisement as read through reflect
+type wbAdv struct {
+	Key   string // map key (Prefix.String())
+	LP    uint32
+	Comms [][2]uint32
+	OK    bool // content could be read in the expected representation
+}
+
+// advMap reads a map[string]*Advertisement field: (is nil, the entries by content).
+// Content, not pointer identity: Set may keep private copies of what it was given.
+func (w *wbSess) advMap(name string) (bool, []wbAdv) {
 	f, ok := w.f(name, wbIs(wbAdvMap))
 	if !ok {
 		return true, nil
@@ -1260,11 +1271,57 @@ func (w *wbSess) advMap(name string) (bool, []uintptr) {
 	if f.IsNil() {
 		return true, nil
 	}
-	var ps []uintptr
+	var as []wbAdv
 	for _, k := range f.MapKeys() {
-		ps = append(ps, f.MapIndex(k).Pointer())
+		a := wbAdv{Key: k.String()}
+		if v := f.MapIndex(k); v.Kind() == reflect.Ptr && !v.IsNil() {
+			e := v.Elem()
+			lp, cs := e.FieldByName("LocalPref"), e.FieldByName("Communities")
+			if lp.IsValid() && lp.Kind() == reflect.Uint32 && cs.IsValid() && cs.Kind() == reflect.Slice {
+				a.LP, a.OK = uint32(lp.Uint()), true
+				for i := 0; i < cs.Len(); i++ {
+					c := cs.Index(i)
+					if c.Kind() == reflect.Interface {
+						c = c.Elem()
+					}
+					if c.Kind() == reflect.Struct && c.NumField() == 2 && c.Field(0).Kind() == reflect.Uint16 && c.Field(1).Kind() == reflect.Uint16 {
+						a.Comms = append(a.Comms, [2]uint32{uint32(c.Field(0).Uint()), uint32(c.Field(1).Uint())})
+					} else {
+						a.OK = false
+					}
+				}
+			}
+		}
+		as = append(as, a)
 	}
-	return false, ps
+	return false, as
+}
+
+// sKVOf maps the content of an advertisement back to (key, attribute variant)
+func sKVOf(a wbAdv) sKV {
+	e := sKV{99, 99}
+	if !a.OK {
+		return e
+	}
+	for k := 0; k < sNKeys; k++ {
+		if sPrefix(k).net().String() == a.Key {
+			e.K = k
+		}
+	}
+	for v, at := range sAttrs {
+		if at.LP != a.LP || len(at.Comms) != len(a.Comms) {
+			continue
+		}
+		same := true
+		for j, cm := range at.Comms {
+			same = same && a.Comms[j] == [2]uint32{cm.A, cm.B}
+		}
+		if same {
+			e.V = v
+			break
+		}
+	}
+	return e
 }
 func (w *wbSess) setConn(c net.Conn) {
 	if f, ok := w.f("conn", wbIs(wbConnT)); ok {
@@ -1468,19 +1525,11 @@ func sStepCase(out *vOut, id int, r *rand.Rand, force int) {
 		s.Close()
 		op, opH = "OClose", "Close"
 	}
-	byPtr := map[uintptr]sKV{}
-	for a, e := range index {
-		byPtr[reflect.ValueOf(a).Pointer()] = e
-	}
 	rd := func(field string) (bool, []sKV) {
-		isNil, ps := w.advMap(field)
+		isNil, as := w.advMap(field)
 		var l []sKV
-		for _, a := range ps {
-			e, ok := byPtr[a]
-			if !ok {
-				e = sKV{99, 99}
-			}
-			l = append(l, e)
+		for _, a := range as {
+			l = append(l, sKVOf(a))
 		}
 		sort.Slice(l, func(i, j int) bool { return l[i].K < l[j].K })
 		return isNil, l
@@ -1600,7 +1649,7 @@ func sPipeSchedule(out *vOut, id int, r *rand.Rand, fault bool) {
 		lg("TSetRet", "Set returned")
 	}
 	table := map[int]int{}
-	nread := 0
+	nread, nkeep := 0, 0
 	// readOne reads and applies one message; false when nothing arrives within d
 	readOne := func(d time.Duration) bool {
 		// the deadline limits only the wait for a message to START; once its first
@@ -1624,6 +1673,10 @@ func sPipeSchedule(out *vOut, id int, r *rand.Rand, fault bool) {
 		}
 		nread++
 		m, derr := vDecode(mb, fb)
+		if derr == nil && m.Type == 4 {
+			nkeep++ // a well-formed KEEPALIVE between UPDATEs is fine
+			return true
+		}
 		if derr != nil || m.Type != 2 {
 			mu.Lock()
 			fails = append(fails, [2]string{"session-message-malformed", fmt.Sprintf("%x: %v", mb, derr)})
@@ -1697,6 +1750,9 @@ func sPipeSchedule(out *vOut, id int, r *rand.Rand, fault bool) {
 	// incremental loop (what follows is a diff flush, not the first flush)
 	closed := make(chan bool)
 	close(closed)
+	// the driver calls Set synchronously only when the sender is idle: a sender that writes
+	// (e.g. a KEEPALIVE after a batch) holds the session lock until the peer has read
+	drainUntilIdle(closed)
 	callSet(randSet(0))
 	drainUntilIdle(closed)
 	var want map[int]int
@@ -1738,8 +1794,14 @@ func sPipeSchedule(out *vOut, id int, r *rand.Rand, fault bool) {
 		if r.Intn(3) == 0 {
 			jf = r.Intn(nupd + 1)
 		}
-		for x := 0; x < jf; x++ {
-			readOne(500 * time.Millisecond)
+		for x := 0; x < jf; {
+			before := nkeep
+			if !readOne(500 * time.Millisecond) {
+				break
+			}
+			if nkeep == before {
+				x++
+			}
 		}
 		c2.Close()
 		lg(fmt.Sprintf("TDrop %d", cid), fmt.Sprintf("c%d: peer goes away after %d of %d messages (write %d fails)", cid, jf, nupd+1, jf+1))
@@ -1831,8 +1893,14 @@ func sPipeSchedule(out *vOut, id int, r *rand.Rand, fault bool) {
 		callSet(a)
 		want = a
 		// 2. the peer reads only part of the flush, then stops reading
-		for k := r.Intn(len(a)); k > 0; k-- {
-			readOne(500 * time.Millisecond)
+		for k := r.Intn(len(a)); k > 0; {
+			before := nkeep
+			if !readOne(500 * time.Millisecond) {
+				break
+			}
+			if nkeep == before {
+				k--
+			}
 		}
 		// 3. further Set() calls while the sender sits in its write
 		nmore := 1 + r.Intn(2)
@@ -1887,6 +1955,7 @@ func sPipeSchedule(out *vOut, id int, r *rand.Rand, fault bool) {
 		out.Stat("sess:set-during-write", 1)
 	}
 	out.Stat("sess:set-during-write-messages", nread)
+	out.Stat("sess:pipe-keepalives", nkeep)
 	hm := map[string]any{"ibgp": ibgp, "peer_as4": fb, "final": "pipe", "trace": human, "special": "set-during-write"}
 	for _, f := range fails {
 		out.Fail(f[0], f[1], hm)
